@@ -49,6 +49,7 @@ func powRecord(n, m int) {
 		w.release() // sequential driver: the sandbox is taken again by the next scenario
 		vio.Emit(event{Op: "reset", Ids: []int{}, Known: []int{}, Obs: o0})
 		stored := map[int]bool{0: true}
+		bad := map[int]bool{}     // headers with a wrong declared height
 		pending := func() []int { // not stored, parent stored
 			var r []int
 			for i := 1; i <= m; i++ {
@@ -107,8 +108,8 @@ func powRecord(n, m int) {
 				if rng.Bool() {
 					off = -1
 				}
-				ids = []int{-2}
-				hs = []*eth.Header{w.child(p, 1, -1, off)}
+				ids = []int{w.add(w.child(p, 1, -1, off))}
+				bad[ids[0]] = true
 			}
 			if hs == nil {
 				for _, id := range ids {
@@ -120,7 +121,7 @@ func powRecord(n, m int) {
 			expok := true
 			for k, id := range ids {
 				known[k] = b2i(id >= 0 && stored[id])
-				if id < 0 {
+				if bad[id] {
 					expok = false
 					break
 				}
